@@ -27,6 +27,11 @@ from jobs import JOBS, PROPS   # noqa: E402
 # --------------------------------------------------------------------------- build
 def build_harness():
     t0 = time.time()
+    if os.environ.get("VERIF_SKIP_BUILD") and os.path.exists(HARNESS_BIN):
+        # development only (background sweeps started from a snapshot while /repo is being patched for
+        # mutant evaluation): reuse the harness built at the start of the sweep.  Never set by a registered command.
+        log("VERIF_SKIP_BUILD: reusing " + HARNESS_BIN)
+        return
     env = dict(os.environ, CARGO_NET_OFFLINE="true")
     lock = os.path.join(HARNESS_DIR, "Cargo.lock")
     if not os.path.exists(lock):
